@@ -475,6 +475,7 @@ func (r *RigR) run() {
 		a := acts[0]
 		s.logf("%04d t=%dms drain %s", s.Step, s.Now().Milliseconds(), a.Key)
 		s.Step++
+		s.Tick()
 		a.Run()
 	}
 	s.Settle()
@@ -558,6 +559,11 @@ func (r *RigR) actions(drain bool) []Action {
 		}
 		if !drain && o.op.AfterRound >= 0 && rounds <= o.op.AfterRound {
 			continue
+		}
+		if o.op.AfterColl != 0 {
+			if dep := r.opState("start", o.op.AfterColl); dep == nil || !dep.done || dep.err != nil {
+				continue
+			}
 		}
 		st := r.opState("start", o.op.Coll)
 		switch o.op.Kind {
